@@ -476,7 +476,12 @@ def run_case(case):
         _, gran, a, b, ka, kb, first, k = case
         pre = {} if k < 0 else {(first, k): 1 - first}
         try:
-            res, counts, taken = sched.run([body(a, ka), body(b, kb)], runner.REPO + "/ctparse/", gran, first=first, preempts=pre)
+            try:
+                res, counts, taken = sched.run([body(a, ka), body(b, kb)], runner.REPO + "/ctparse/", gran, first=first, preempts=pre)
+            except sched.Deadlock:
+                # the horizon is wall-clock time: on a heavily loaded machine a healthy schedule can exceed it - only a schedule that
+                # also fails to finish within a five times longer horizon is reported
+                res, counts, taken = sched.run([body(a, ka), body(b, kb)], runner.REPO + "/ctparse/", gran, first=first, preempts=pre, horizon_s=300.0)
         except sched.Deadlock as e:
             v.append(viol({"kind": "deadlock"}, "schedule {}: {}".format(case, e)))
             return {"o": "deadlock", "nt": True, "v": v}
@@ -532,7 +537,14 @@ def run_case(case):
                 pts = pts[:150]
                 capped = True
             for k in pts:
-                res, counts, taken = sched.run(bodies, prefix, "line", first=who, preempts={(who, k): 1 - who})
+                try:
+                    try:
+                        res, counts, taken = sched.run(bodies, prefix, "line", first=who, preempts={(who, k): 1 - who})
+                    except sched.Deadlock:
+                        res, counts, taken = sched.run(bodies, prefix, "line", first=who, preempts={(who, k): 1 - who}, horizon_s=300.0)
+                except sched.Deadlock as e:
+                    v.append(viol({"kind": "deadlock", "granularity": "line@write-point"}, "threads ({!r},{!r}), thread {} preempted at line point {}: {}".format(POOL[a]["text"], POOL[b]["text"], who, k, e)))
+                    break
                 n_sched += 1
                 for w, (i, kk) in enumerate(((a, ka), (b, kb))):
                     ref = REF["one" if kk == "one" else "gen"][i]
